@@ -19,6 +19,29 @@ from .source import RepoIndex, FuncInfo, ClassInfo
 from .state import State, Frame, PyList, PyDict, PySet
 
 
+_QCACHE = {}
+
+
+def _has_quantifier(e):
+    i = e.get_id()
+    r = _QCACHE.get(i)
+    if r is not None:
+        return r
+    seen, stack, found = set(), [e], False
+    while stack:
+        t = stack.pop()
+        if t.get_id() in seen:
+            continue
+        seen.add(t.get_id())
+        if z3.is_quantifier(t):
+            found = True
+            break
+        if z3.is_app(t):
+            stack.extend(t.children())
+    _QCACHE[i] = found
+    return found
+
+
 class Unsupported(Exception):
     def __init__(self, msg, node=None):
         self.node = node
@@ -119,6 +142,7 @@ class Exec:
         self.max_inline_depth = 12
         self.stats = dict(paths=0, forks=0, feas_checks=0, calls_by_contract=0, inlined=0)
         self.assumed_used: set = set()
+        self.contracts_used: set = set()
         from . import lib
         self.lib = lib
         self.heap_decl: dict[str, z3.SortRef] = {}
@@ -134,6 +158,14 @@ class Exec:
 
     def field_info(self, cls, fname):
         r = self.reg.field(cls, fname)
+        if r is None:
+            # duck-typed read through a base-class reference (event.ev on an Event): the field of the unique declaring
+            # subclass is used; that the object really carries it is assumption A-DUCK (recorded when used)
+            cands = [(c, sc.fields[fname]) for c, sc in self.reg.schemas.items()
+                     if fname in sc.fields and c != cls and self.reg.is_subclass(c, cls)]
+            if len(cands) == 1:
+                self.assumed_used.add(f"A-DUCK {cls}.{fname} read through a base-class reference (declared in {cands[0][0]})")
+                return cands[0]
         return r
 
     def read_field(self, st: State, obj: ty.ObjV, fname, node=None):
@@ -141,7 +173,7 @@ class Exec:
         if fi is None:
             raise Unsupported(f"field {obj.cls}.{fname} has no declared sort in the schema", node)
         decl, t = fi
-        cs = [z3.Select(self.heap_arr(st, k, c), obj.ref) for k, c in zip(self.heap_keys(decl, fname, t), t.comps())]
+        cs = [z3.simplify(z3.Select(self.heap_arr(st, k, c), obj.ref)) for k, c in zip(self.heap_keys(decl, fname, t), t.comps())]
         v = ty.unpack(t, cs)
         self.assume_wf(st, t, v)
         return v
@@ -159,7 +191,7 @@ class Exec:
         except TypeError as e:
             raise Unsupported(f"cannot store {val!r} into {obj.cls}.{fname}: {t} ({e})", node)
         for k, srt, c in zip(self.heap_keys(decl, fname, t), t.comps(), cs):
-            st.heap[k] = z3.Store(self.heap_arr(st, k, srt), obj.ref, c)
+            st.heap[k] = z3.simplify(z3.Store(self.heap_arr(st, k, srt), obj.ref, c))
 
     def assume_wf(self, st, t, v):
         """Heap well-formedness: references read out of the heap are null or allocated."""
@@ -205,14 +237,17 @@ class Exec:
         st.assume(cond)
 
     def feasible(self, st: State, extra=None) -> bool:
+        """Path pruning only: an over-approximation is sound, so the quantified hypotheses are left out (they make the
+        solver answer `unknown` after the full timeout) and only the quantifier-free part of the path condition is used."""
         self.stats["feas_checks"] += 1
         s = z3.Solver()
         s.set("timeout", self.feas_timeout)
-        for h in self.lib.theory_axioms(st.pc + ([extra] if extra is not None else [])):
-            s.add(h)
-        s.add(*st.pc)
-        if extra is not None:
-            s.add(extra)
+        qf = [h for h in st.pc if not _has_quantifier(h)]
+        fs = qf + ([extra] if extra is not None else [])
+        for h in self.lib.theory_axioms(fs):
+            if not _has_quantifier(h):
+                s.add(h)
+        s.add(*fs)
         return s.check() != z3.unsat
 
     # =================================================================== truthiness / forks
@@ -576,6 +611,10 @@ class Exec:
             i = self.norm_index(i, cont.len)
             self.safety(st, "index", z3.And(i >= 0, i < cont.len), node)
             return cont.with_at(i, self.coerce(cont.elem, val, node))
+        if isinstance(cont, ty.OptV):
+            self.safety(st, "none-subscript-store", z3.Not(cont.isnone), node)
+            inner = self.store_item(cont.val, idx, val, st, node)
+            return ty.OptV(z3.BoolVal(False), inner, cont.t)
         if isinstance(cont, ty.MapV):
             return self.lib.map_store(self, st, cont, idx, val, node)
         if isinstance(cont, ty.MatV):
@@ -855,15 +894,25 @@ class Exec:
         """modifies entries of a loop: "Class.field" (all receivers), ("Class.field", fn(view) -> [receivers]), "warnings", "alloc"."""
         from .views import unwrap
         pre = self.view(st)
+        entry_alloc = st.alloc
         for m in mods:
             fld, who = (m if isinstance(m, tuple) else (m, None))
             if fld in ("warnings", "alloc"):
                 continue
-            if who is None:
+            if who is None or who == "ALL":
                 self.havoc_heap(st, [fld])
                 continue
             cls, fname = fld.split(".", 1)
             decl, t = self.field_info(cls, fname)
+            if who == "FRESH":
+                for k, srt in zip(self.heap_keys(decl, fname, t), t.comps()):
+                    a = self.heap_arr(st, k, srt)
+                    na = z3.Const(ty.fresh_name(f"H:{k}"), z3.ArraySort(ty.RefSort, srt))
+                    r = z3.Const(ty.fresh_name("fr"), ty.RefSort)
+                    st.assume(z3.ForAll([r], z3.Implies(z3.Select(entry_alloc, r), z3.Select(na, r) == z3.Select(a, r)),
+                                        patterns=[z3.Select(na, r)]))
+                    st.heap[k] = na
+                continue
             refs = [unwrap(x) for x in who(pre)]
             for k, srt in zip(self.heap_keys(decl, fname, t), t.comps()):
                 a = self.heap_arr(st, k, srt)
@@ -879,6 +928,8 @@ class Exec:
         res = []
         if kind == "for":
             st.assign(kname, 0)
+        if spec.ghost is not None:
+            st.ghost.update(spec.ghost(self.view(st)))
         for ln, lt_ in spec.locals.items():
             found, cur = st.lookup(ln)
             if found:
@@ -1517,6 +1568,7 @@ class Exec:
 
     def apply_contract(self, c: Contract, fi: FuncInfo, args, kwargs, st, node, iface_only=False):
         self.stats["calls_by_contract"] += 1
+        self.contracts_used.add(c.qualname + (f"@{c.extra.get('recv')}" if c.extra.get("recv") else ""))
         if c.assumed:
             self.assumed_used.add(c.qualname)
         bound = self.bind_args(fi, args, kwargs, st, node)
@@ -1573,6 +1625,7 @@ class Exec:
         if not c.modifies:
             return
         pre = self.view(st, targs)
+        pre_alloc = st.alloc
         for m in c.modifies:
             if isinstance(m, tuple):
                 fld, who = m
@@ -1597,8 +1650,8 @@ class Exec:
             if who is None:
                 first = next(iter(targs.values()), None)
                 refs = [first] if isinstance(first, ty.ObjV) else "ALL"
-            elif who == "ALL":
-                refs = "ALL"
+            elif who in ("ALL", "FRESH"):
+                refs = who
             else:
                 from .views import unwrap
                 refs = [unwrap(x) for x in who(pre)]
@@ -1606,6 +1659,13 @@ class Exec:
                 a = self.heap_arr(st, k, srt)
                 if refs == "ALL":
                     st.heap[k] = z3.Const(ty.fresh_name(f"H:{k}"), z3.ArraySort(ty.RefSort, srt))
+                elif refs == "FRESH":
+                    # only objects allocated by the callee may differ
+                    na = z3.Const(ty.fresh_name(f"H:{k}"), z3.ArraySort(ty.RefSort, srt))
+                    r = z3.Const(ty.fresh_name("fr"), ty.RefSort)
+                    st.assume(z3.ForAll([r], z3.Implies(z3.Select(pre_alloc, r), z3.Select(na, r) == z3.Select(a, r)),
+                                        patterns=[z3.Select(na, r)]))
+                    st.heap[k] = na
                 else:
                     for r in refs:
                         if r is None:
@@ -1705,6 +1765,10 @@ class Exec:
                 self.oblige(o.st, f"raises/{o.val.cls}/only-when/{pid}", dsl.Or(*conds), fi.node)
                 if all(rs.unchanged for rs in specs):
                     self.unchanged_obligations(entry, o.st, f"raises/{o.val.cls}/frame", pid, fi.node)
+                for rs in specs:
+                    if rs.post is not None:
+                        for tag, g in self.eval_clauses(rs.post, oldv, newv):
+                            self.oblige_clause(o.st, f"raises/{o.val.cls}/post/{tag}/{pid}", g, fi.node)
         if n_paths == 0:
             self.oblige(entry, "no-feasible-path", z3.BoolVal(False), fi.node)
         return self.obls[n0:]
@@ -1735,11 +1799,13 @@ class Exec:
                 refs = [first] if isinstance(first, ty.ObjV) else "ALL"
             elif who == "ALL":
                 refs = "ALL"
+            elif who == "FRESH":
+                refs = []
             else:
                 from .views import unwrap
                 refs = [unwrap(x) for x in who(pre)]
             for k in self.heap_keys(decl, fname, t):
-                allowed[k] = refs
+                allowed[k] = refs if k not in allowed or allowed[k] != "ALL" else "ALL"
         for k, a in new.heap.items():
             a0 = old.heap.get(k)
             if a0 is None:
